@@ -109,6 +109,7 @@ func (c *ctx) atomicReload() {
 		for _, o := range ops {
 			desc = append(desc, fmt.Sprintf("[%d,%d] %s", o.Call, o.Return, m.DescribeOperation(o.Input, o.Output)))
 		}
+		c.v("C13/admission-not-by-one-configuration", "no configuration in force explains the outcome of some lookup: a connection was admitted, refused or bound to a key against deny-beats-allow / first-matching-scope\n   %s", strings.Join(desc, "\n   "))
 		c.v("C15/lookup-mixes-configurations", "no order of publications and lookups explains the history: some lookup saw neither the old nor the new configuration\n   %s", strings.Join(desc, "\n   "))
 	case porcupine.Unknown:
 		c.r.Probes["linearizability-inconclusive"]++
